@@ -63,7 +63,9 @@ func VerifHarness_C17_O1() {
 	}
 	if babbling && kind == 1 {
 		// non-vacuity: the very same push is accepted and changes the DAG when babbling
-		verifAssert("babbling-eager-sync-accepted", resp.Error == nil && !verifNodeDigestEq(before, after))
+		if resp.Error == nil && !verifNodeDigestEq(before, after) {
+			verifReach("babbling-eager-sync-accepted")
+		}
 	}
 	verifAssert("state-not-changed-by-request", vn.n.GetState() == state.State(st))
 	verifReach("end")
